@@ -6,7 +6,7 @@ import random
 from props.common import BASE_TRUSTED
 
 PROP = 'C13'
-KERNELS = ['sg_get_thickness', 'nr_sphere', 'ea_sag', 'pg_sag']
+KERNELS = ['sg_get_thickness', 'wf_opd_image_to_xp', 'wf_path_length', 'nr_sphere', 'ea_sag', 'pg_sag']
 THEOREMS = ['C13_queries_preserve_prescription', 'C13_output_depends_only_on_prescription',
             'C13_history_independent_output', 'C13_repeatable_output', 'C13_records_after_forward_trace',
             'C13_records_after_real_trace', 'C13_reverse_trace_leaves_lens', 'C13_built_wf',
@@ -17,7 +17,8 @@ THEOREMS = ['C13_queries_preserve_prescription', 'C13_output_depends_only_on_pre
             'C13_rays_do_not_depend_on_aliasing', 'C13_trace_generic_args_safe', 'C13_tg_scale_twice_same',
             'C13_inplace_unchanged_iff', 'C13_newton_batch_iter', 'C13_batch_count_ge_single',
             'C13_newton_batch_member', 'C13_newton_companions_only_prolong', 'C13_newton_batch_exit_residual',
-            'C13_newton_iterates_on_ray', 'C13_newton_batch_tolerance_partial']
+            'C13_newton_iterates_on_ray', 'C13_newton_batch_tolerance_partial',
+            'C13_wf_opd_image_to_xp_on_sphere', 'C13_wf_path_length_reads_only_the_ray']
 TRUSTED_BASE = BASE_TRUSTED + [
     'modelled, not translated: the record plumbing of Surface/SurfaceGroup (reset, _record, getters, trace with skip, '
     'inverted deep copy) and the call graph of paraxial.py / ray_generator.py / optic.py / wavefront.py / analysis/*.py '
@@ -41,7 +42,7 @@ RULE = ('seeded lenses from tools/lensgen (planes/spheres/conics/aspheres/polyno
         'mixed), 15 paraxial queries, marginal/chief ray, paraxial.trace, 14 aberration queries, n(), Wavefront, OPDFan, '
         'OPD, ZernikeOPD, FFTPSF, FFTMTF, GeometricMTF and the 10 analysis classes; non-trivial = call returned without '
         'raising')
-COQ_TARGETS = ['Lemmas/L_C13.vo', 'Model/M_C13.vo', 'Gen/Geometries.vo', 'Gen/C13Kern.vo']
+COQ_TARGETS = ['Lemmas/L_C13.vo', 'Lemmas/L_C13_wavefront.vo', 'Model/M_C13.vo', 'Gen/Geometries.vo', 'Gen/C13Kern.vo']
 PARTIAL = [
     'newton_batch_tolerance_partial: the bound 2 tol/m + 2 tol/|N| between a ray alone and in company needs the residual '
     'z - sag(x,y) to be m-expansive along the ray (transversality) as a hypothesis; without it only the structural facts '
@@ -71,6 +72,21 @@ def kernel_cases(ctx):
             pos[0] = float('-inf')
         th.append([g.r.randrange(0, m - 1), pos])
     yield 'sg_get_thickness', th, {'shadow': ['positions'], 'arrays': ['self.positions']}
+    # the code that reads the record table after a trace: ray at the image, reference sphere through the pupil
+    wfc, wfp = [], []
+    rows = ['self.optic.surface_group.' + q for q in ('x', 'y', 'z', 'L', 'M', 'N', 'opd')]
+    for i in range(n):
+        xc, yc, zc = g.uni(-5, 5), g.uni(-5, 5), g.uni(-0.5, 0.5)
+        R = g.uni(20, 200)
+        L, M = g.uni(-0.3, 0.3), g.uni(-0.3, 0.3)
+        N = math.sqrt(1 - L * L - M * M) * (1 if i % 11 else -1)
+        x, y, z = xc + g.uni(-1, 1), yc + g.uni(-1, 1), zc + g.uni(-0.2, 0.2)
+        if i % 17 == 0:
+            x, y = xc + 3 * R, yc            # outside the sphere, heading away: negative discriminant -> NaN
+        wfc.append([xc, yc, zc, R, x, y, z, L, M, N])
+        wfp.append([xc, yc, zc, R, g.uni(50, 300), x, y, z, L, M, N])
+    yield 'wf_opd_image_to_xp', wfc, {'rows2d': rows}
+    yield 'wf_path_length', wfp, {'rows2d': rows}
     sph = []
     for i in range(n):
         d = g.unit3()
